@@ -340,6 +340,37 @@ func c13Observe(ctx *core.Ctx, pos, expr string) (string, error) {
 
 // c13ObserveOn does the same on a given (possibly already used) engine.
 func c13ObserveOn(ctx *core.Ctx, t vuego.Template, pos, expr string) (string, error) {
+	return c13ObserveEnv(ctx, t, pos, expr, c13Env())
+}
+
+// c13Retyped: the variables of the environment in other dynamic types (what a JSON decoder or
+// a form delivers) or not there at all
+func c13Retyped(kind string) map[string]any {
+	env := c13Env()
+	switch kind {
+	case "floats":
+		for k, v := range env {
+			if i, ok := v.(int); ok {
+				env[k] = float64(i)
+			}
+		}
+		env["l"] = []any{10.0, 20.0}
+		env["m"] = map[string]any{"k": "mk", "l": []string{"x", "y"}, "n": 7.0}
+	case "strings":
+		for k, v := range env {
+			switch v.(type) {
+			case int, float64, bool:
+				env[k] = fmt.Sprint(v)
+			}
+		}
+		env["st"] = map[string]any{"Field": "SF", "Num": "3"}
+	case "absent":
+		return map[string]any{}
+	}
+	return env
+}
+
+func c13ObserveEnv(ctx *core.Ctx, t vuego.Template, pos, expr string, env map[string]any) (string, error) {
 	q := `"`
 	if strings.Contains(expr, `"`) {
 		if strings.Contains(expr, "'") && pos != "mustache" {
@@ -362,7 +393,7 @@ func c13ObserveOn(ctx *core.Ctx, t vuego.Template, pos, expr string) (string, er
 	}
 	var buf bytes.Buffer
 	ctx.Eval(1)
-	if err := t.New().Fill(c13Env()).RenderString(bg, &buf, tpl); err != nil {
+	if err := t.New().Fill(env).RenderString(bg, &buf, tpl); err != nil {
 		return "", err
 	}
 	r := htmlcmp.ByID(htmlcmp.Parse(buf.String()), "r")
@@ -456,6 +487,24 @@ func (c *c13Case) Run(ctx *core.Ctx) {
 			}
 		}
 		ctx.Outcome(fmt.Sprint(obs))
+	case "retype":
+		// the same expression text on ONE engine with the variables in other dynamic types first:
+		// the engine must not remember the types of an earlier evaluation
+		for _, pos := range c13Positions {
+			alone, err0 := c13Observe(ctx, pos, c.Expr)
+			if err0 != nil && err0.Error() == "unquotable" {
+				continue
+			}
+			for _, kind := range []string{"floats", "strings", "absent"} {
+				shared := vuego.New(vuego.WithFuncs(c13Funcs()))
+				_, _ = c13ObserveEnv(ctx, shared, pos, c.Expr, c13Retyped(kind))
+				got, err := c13ObserveOn(ctx, shared, pos, c.Expr)
+				if (err != nil) != (err0 != nil) || got != alone {
+					ctx.Violation("depends-on-earlier-types", pos, kind, fmt.Sprintf("%s in %s: alone %q (err %v); after an evaluation of the same text with the variables as %s on the same engine %q (err %v)", c.Expr, pos, alone, err0, kind, got, err))
+					break
+				}
+			}
+		}
 	case "pair":
 		// two expressions that look alike, one after the other on ONE engine: the second must
 		// have the value it has alone (compiled-expression caches, parsed-path caches)
@@ -589,7 +638,7 @@ func init() {
 		ID:    "C13",
 		Level: "exploration",
 		Rule: "expression part: all type-correct expression trees up to the bound over 21 leaves (paths into ints/floats/strings/bools/nested maps/slices/struct, undefined, literals in both quote styles) and 15 binary operators, !, ?: and parentheses (spaced and unspaced variants), each observed in 5 positions ({{ }}, :attr, v-if, v-else-if, v-show) against a reference evaluator; " +
-			"pipe part: every chain up to the bound over 19 filter stages (built-ins and registered functions with int/float/string/bool/variadic/context parameters, arguments as literals in both quote styles, numbers, variables) from 6 initial values, plus every string literal argument of <=3 tokens over {letter, the other quote character, space, comma, parentheses, pipe, dash, dot, colon} in both quote styles against direct application of the Go functions; error part: unknown function, wrong arity, impossible conversion, function error in 4 positions must fail naming the function. non-trivial = all",
+			"pipe part: every chain up to the bound over 19 filter stages (built-ins and registered functions with int/float/string/bool/variadic/context parameters, arguments as literals in both quote styles, numbers, variables) from 6 initial values, plus every string literal argument of <=3 tokens over {letter, the other quote character, space, comma, parentheses, pipe, dash, dot, colon} in both quote styles against direct application of the Go functions; retype part: every expression of depth <= 1 evaluated on one engine after an evaluation of the same text with the variables as float64 / as strings / absent must have the value it has alone; error part: unknown function, wrong arity, impossible conversion, function error in 4 positions must fail naming the function. non-trivial = all",
 		Bounds:      map[string]string{"quick": "expression depth <= 2 (one compound operand), pipe chains of length <= 2", "thorough": "expression depth <= 2, pipe chains of length <= 3"},
 		Assumptions: []string{"only exact integer divisions, same-type equalities and bool operands of && || are generated (conventions differ elsewhere)", "string form of float arithmetic is unconstrained", "int->float/float->int parameter conversions are unconstrained"},
 		Decode:      core.DecodeAs[c13Case](),
@@ -601,6 +650,13 @@ func init() {
 				}
 				emit(&c13Case{Part: "expr", Expr: e.Src, Shape: shape, Want: e.V.canon()})
 			})
+			// retype part: every expression of depth <= 1 (leaves and one operator) and the documented call forms
+			c13Exprs(1, func(e c13E) {
+				emit(&c13Case{Part: "retype", Expr: e.Src, Shape: e.Shape})
+			})
+			for _, src := range []string{"n | double", "s | upper", "double(n)", "addn(n, 3)", "n | addn(k)", "isbig(n)", "n == k", "s == 'str'", "n > k ? s : e", "st.Field", "m.n + 1", "l[0]"} {
+				emit(&c13Case{Part: "retype", Expr: src, Shape: "call"})
+			}
 			inits := []c13E{
 				{Src: "n", V: c13V{T: "int", I: 5}}, {Src: "s", V: c13V{T: "string", S: "str"}}, {Src: "ns", V: c13V{T: "string", S: "42"}},
 				{Src: "t", V: c13V{T: "bool", B: true}}, {Src: "e", V: c13V{T: "string", S: ""}}, {Src: "zz", V: c13V{T: "nil"}}, {Src: "m.k", V: c13V{T: "string", S: "mk"}},
